@@ -22,6 +22,10 @@ pub struct WorkCase {
     pub n: usize,
     pub land: Landscape,
     pub init: Vec<f64>,
+    /// a parameter whose limits coincide (min = max = its start value): proposals on it change nothing but are steps of
+    /// the run all the same; work is then counted in score evaluations
+    #[serde(default)]
+    pub fixed: Option<u16>,
 }
 
 fn work_strat(_: &Ctx) -> BoxedStrategy<WorkCase> {
@@ -50,17 +54,22 @@ fn work_strat(_: &Ctx) -> BoxedStrategy<WorkCase> {
                 Just(n),
                 landscape_strat(n, -10., 10.),
                 proptest::collection::vec(-5.0..5.0f64, n),
+                prop_oneof![4 => Just(None), 1 => any::<u16>().prop_map(Some)],
             )
         })
-        .prop_map(|(steps, inner, kt_start, kt_finish, kt_ratio, max_step, convergence, seed, n, mut land, init)| {
+        .prop_map(|(steps, inner, kt_start, kt_finish, kt_ratio, max_step, convergence, seed, n, mut land, init, fixed)| {
             land.invalid = None; // the start must be valid for every seed
-            WorkCase { cfg: OptCfg { steps, inner, kt_start, kt_finish, kt_ratio, max_step, convergence, seed }, n, land, init }
+            WorkCase { cfg: OptCfg { steps, inner, kt_start, kt_finish, kt_ratio, max_step, convergence, seed }, n, land, init, fixed }
         })
         .boxed()
 }
 
 fn run(c: &WorkCase, cfg: &OptCfg) -> RunOut {
-    let bounds = vec![(-1.0e6, 1.0e6); c.n];
+    let mut bounds = vec![(-1.0e6, 1.0e6); c.n];
+    if let Some(f) = c.fixed {
+        let i = crate::engine::idx(f, c.n);
+        bounds[i] = (c.init[i], c.init[i]);
+    }
     run_script(cfg, &c.init, &bounds, cfg.kt_start == 0., true, Box::new(LandscapePolicy(c.land.clone())))
 }
 
@@ -82,7 +91,7 @@ fn count_work(out: &RunOut) -> Option<(u64, u64)> {
     Some((p, (out.shadow_steps.len() - last_changed) as u64))
 }
 
-fn check_amount(out: &RunOut, cfg: &OptCfg, what: &str) -> Result<(), String> {
+fn check_amount(out: &RunOut, cfg: &OptCfg, what: &str, countable: bool) -> Result<(), String> {
     if let Some(p) = &out.panicked {
         return Err(format!("{}: optimise_state panicked: {} (steps {}, inner_steps {})", what, p, cfg.steps, cfg.inner));
     }
@@ -96,7 +105,7 @@ fn check_amount(out: &RunOut, cfg: &OptCfg, what: &str) -> Result<(), String> {
         // an early exit is allowed; when and where is judged by the prefix comparison
         lo_excl = -1;
     }
-    let counted = if cfg.max_step > 0. { count_work(out) } else { None };
+    let counted = if cfg.max_step > 0. && countable { count_work(out) } else { None };
     if let Some((p, trailing)) = counted {
         let p = p as i64;
         if !(p > lo_excl && p <= hi) {
@@ -123,7 +132,7 @@ fn work_oracle(c: &WorkCase, rec: &Rec, _: &Ctx) -> Result<(), String> {
     }
     let out = run(c, &c.cfg);
     rec.eval(out.calls_during_run as u64);
-    check_amount(&out, &c.cfg, "run")?;
+    check_amount(&out, &c.cfg, "run", c.fixed.is_none())?;
     let mut early = false;
     if let Some(thr) = c.cfg.convergence {
         // reference run without the threshold
@@ -131,8 +140,8 @@ fn work_oracle(c: &WorkCase, rec: &Rec, _: &Ctx) -> Result<(), String> {
         cfg0.convergence = None;
         let full = run(c, &cfg0);
         rec.eval(full.calls_during_run as u64);
-        check_amount(&full, &cfg0, "reference run without convergence")?;
-        let counts = if c.cfg.max_step > 0. { count_work(&out).zip(count_work(&full)) } else { None };
+        check_amount(&full, &cfg0, "reference run without convergence", c.fixed.is_none())?;
+        let counts = if c.cfg.max_step > 0. && c.fixed.is_none() { count_work(&out).zip(count_work(&full)) } else { None };
         let (pb, pa) = match counts {
             Some(((pb, _), (pa, _))) => (pb, pa),
             None => (0, 0),
@@ -328,13 +337,13 @@ fn small_scope(ctx: &Ctx, ev: &mut crate::evidence::Evidence) {
             for kt in [0.0f64, 0.5].iter() {
                 for conv in [None, Some(1e9)].iter() {
                     let cfg = OptCfg { steps, inner, kt_start: *kt, kt_finish: None, kt_ratio: None, max_step: 1e-7, convergence: *conv, seed: steps * 1000 + inner };
-                    let c = WorkCase { cfg: cfg.clone(), n: 3, land: land.clone(), init: vec![0.3, -0.7, 1.1] };
+                    let c = WorkCase { cfg: cfg.clone(), n: 3, land: land.clone(), init: vec![0.3, -0.7, 1.1], fixed: None };
                     let out = run(&c, &cfg);
                     m.evals += out.calls_during_run as u64;
                     m.cases += 1;
                     m.nontrivial_total += 1;
                     m.nontrivial.insert(steps * 100_000 + inner * 10 + if *kt > 0. { 1 } else { 0 } + if conv.is_some() { 2 } else { 0 });
-                    let mut res = check_amount(&out, &cfg, "small configuration");
+                    let mut res = check_amount(&out, &cfg, "small configuration", true);
                     if res.is_ok() {
                         if let Some((p, _)) = count_work(&out) {
                             // with a threshold every loop meets, the run ends exactly after six whole loops, or runs to the end
